@@ -95,6 +95,18 @@ class Vec(list):
         return Vec(r) if isinstance(i, slice) else r
 
 
+class IntVec(Vec):
+    """numpy array of machine integers (int64, what np.arange / np.array of Python ints give): arithmetic wraps modulo 2**64 exactly as numpy does, silently"""
+    @staticmethod
+    def wrap(v):
+        v = int(v)
+        return (v + 2 ** 63) % 2 ** 64 - 2 ** 63
+
+    def __getitem__(self, i):
+        r = list.__getitem__(self, i)
+        return IntVec(r) if isinstance(i, slice) else r
+
+
 class PyIter:
     """iter(seq): a one-shot iterator that remembers its position (a second loop over it continues where the first one stopped)"""
     def __init__(self, seq): self.seq = list(seq); self.pos = 0
@@ -641,8 +653,11 @@ class Interp:
                     return ('class', m2, node)
                 key = (m2.name, n)
                 if key not in self.module_const_cache:
-                    val = node.value
-                    self.module_const_cache[key] = self.eval(val, Frame(m2, '<module>'))
+                    if self.module_binding_count(m2, n) > 1:
+                        self.module_const_cache[key] = self.module_value(m2, n)       # built by several top-level statements (a loop filling a list, then frozen into a tuple)
+                    else:
+                        val = node.value
+                        self.module_const_cache[key] = self.eval(val, Frame(m2, '<module>'))
                 return self.module_const_cache[key]
             if r[0] == 'module':
                 return ModuleRef(r[1])
@@ -660,6 +675,38 @@ class Interp:
         if n == '__carray__': return Builtin('__carray__')
         if n == '__addr__': return Builtin('__addr__')
         raise AnalysisError(f'{mod.rel()}: unresolved name {n}')
+
+    @staticmethod
+    def _stores(st):
+        out = set()
+        for n_ in ast.walk(st):
+            if isinstance(n_, ast.Name) and isinstance(n_.ctx, (ast.Store, ast.Del)): out.add(n_.id)
+            if isinstance(n_, ast.Call) and isinstance(n_.func, ast.Attribute) and isinstance(n_.func.value, ast.Name) and n_.func.attr in ('append', 'extend', 'update', 'insert', 'add', 'setdefault', 'pop'):
+                out.add(n_.func.value.id)
+            if isinstance(n_, (ast.Subscript, ast.Attribute)) and isinstance(n_.ctx, ast.Store) and isinstance(n_.value, ast.Name): out.add(n_.value.id)
+        return out
+
+    def module_binding_count(self, mod, name):
+        return sum(1 for st in mod.tree.body if not isinstance(st, (ast.FunctionDef, ast.ClassDef, ast.Import, ast.ImportFrom)) and name in self._stores(st))
+
+    def module_value(self, mod, name):
+        """value of a module-level name that several top-level statements build: the statements it depends on (transitively, by the names they bind) are executed in order"""
+        body = [st for st in mod.tree.body if not isinstance(st, (ast.FunctionDef, ast.ClassDef, ast.Import, ast.ImportFrom))]
+        need = {name}; chosen = set()
+        changed = True
+        while changed:
+            changed = False
+            for i_, st in enumerate(body):
+                if i_ in chosen: continue
+                if self._stores(st) & need:
+                    chosen.add(i_); changed = True
+                    need |= {n_.id for n_ in ast.walk(st) if isinstance(n_, ast.Name) and isinstance(n_.ctx, ast.Load)}
+        fr = Frame(mod, '<module>')
+        for i_ in sorted(chosen):
+            self.exec(body[i_], fr)
+        if name not in fr.vars:
+            raise AnalysisError(f'{mod.rel()}: module-level name {name} is not bound by its top-level statements')
+        return fr.vars[name]
 
     def external(self, base, nm):
         if nm in ('pi', 'M_PI'):
@@ -884,7 +931,11 @@ class Interp:
             n = len(a) if isinstance(a, Vec) else len(b)
             if isinstance(a, Vec) and isinstance(b, Vec) and len(a) != len(b):
                 raise AnalysisError(f'array length mismatch {len(a)} vs {len(b)}')
-            return Vec([self.binop(op, a[i] if isinstance(a, Vec) else a, b[i] if isinstance(b, Vec) else b, e, fr) for i in range(n)])
+            vals = [self.binop(op, a[i] if isinstance(a, Vec) else a, b[i] if isinstance(b, Vec) else b, e, fr) for i in range(n)]
+            def integral(v_): return isinstance(v_, IntVec) or (isinstance(v_, int) and not isinstance(v_, bool))
+            if integral(a) and integral(b) and isinstance(op, (ast.Add, ast.Sub, ast.Mult, ast.FloorDiv, ast.Mod, ast.Pow)) and all(isinstance(v_, int) for v_ in vals):
+                return IntVec([IntVec.wrap(v_) for v_ in vals])          # int64 result: numpy wraps without a warning
+            return Vec(vals)
         if isinstance(a, (tuple, list)) and isinstance(b, (tuple, list)) and isinstance(op, ast.Add):
             return type(a)(list(a) + list(b))
         if isinstance(a, str) and isinstance(b, str) and isinstance(op, ast.Add):
@@ -1450,12 +1501,23 @@ class Interp:
             if isinstance(a_, Arr) and a_.shape is not None: return tuple(a_.shape)
             if isinstance(a_, (Node, int, Fraction, float)): return ()
             if isinstance(a_, (list, tuple)): return (len(a_),)
-        if nm == 'cumsum' and args and isinstance(args[0], (list, tuple)):
-            out = []; acc = 0
+        if nm in ('cumsum', 'cumprod') and args and isinstance(args[0], (list, tuple)):
+            out = []; acc = 0 if nm == 'cumsum' else 1
+            ints = isinstance(args[0], IntVec) or (bool(args[0]) and all(isinstance(v_, int) and not isinstance(v_, bool) for v_ in args[0]))
             for v in args[0]:
-                acc = self.binop(ast.Add(), acc, v)
+                acc = self.binop(ast.Add() if nm == 'cumsum' else ast.Mult(), acc, v)
+                if ints: acc = IntVec.wrap(acc)            # integer input: the running value is an int64
                 out.append(acc)
-            return Vec(out)
+            return IntVec(out) if ints else Vec(out)
+        if nm == 'prod' and args and isinstance(args[0], (list, tuple)):
+            acc = 1
+            ints = isinstance(args[0], IntVec) or (bool(args[0]) and all(isinstance(v_, int) and not isinstance(v_, bool) for v_ in args[0]))
+            for v in args[0]:
+                acc = self.binop(ast.Mult(), acc, v)
+                if ints: acc = IntVec.wrap(acc)
+            return acc
+        if nm == 'arange' and args and all(isinstance(concrete(a_), int) for a_ in args) and not kwargs.get('dtype'):
+            return IntVec(list(range(*[concrete(a_) for a_ in args])))
         if nm in ('getattr', 'hasattr') and len(args) >= 2 and isinstance(args[0], ModuleRef) and isinstance(args[1], str):
             m_ = self.repo.module(args[0].dotted)
             try:
